@@ -152,7 +152,9 @@ C06P == {PlainPut(k, 0, x) : k \in C06Keys, x \in {NoExp, -1}}
         \cup {SeqPut(Ks, <<1>>), SeqPut(Ktu, <<1, 2>>)}
 C06D == {[key |-> k, exp |-> NoExp] : k \in C06Keys}
 C06R == {[s |-> Ka, e |-> Kb], [s |-> Ks, e |-> Ks \o <<46>>], [s |-> <<>>, e |-> Kz]}
-C06Setups == << <<>>, BigPuts(101) >>
+\* ("c06": from an empty shard; "c06big": from the pre-populated one, one operation per request)
+C06Setups == IF Mode = "c06big" THEN << BigPuts(101) >> ELSE << <<>> >>
+C06BigR == {[s |-> Ka, e |-> Kaz], [s |-> BigKey(2), e |-> BigKey(101)], [s |-> <<>>, e |-> Kz]}
 
 \* ---------------------------------------------------------------- requests offered in a state
 Requests ==
@@ -163,6 +165,8 @@ Requests ==
       [] Mode = "c13" -> ReqsOver(C13P, C13D, C13R, MaxOps)
       [] Mode = "c06" -> {r \in ReqsOver(C06P, C06D, C06R, MaxOps) : ~SeqStateError(st, Stamp(r))}
                          \cup {[NoReq EXCEPT !.puts = <<PlainPut(SessKey(n), -1, NoExp)>>]}
+      [] Mode = "c06big" -> ReqsOver(C06P \cup BigP, C06D \cup BigD, C06BigR, 1)
+                            \cup {[NoReq EXCEPT !.puts = <<PlainPut(SessKey(n), -1, NoExp)>>]}
 
 \* ---------------------------------------------------------------- steps
 RECURSIVE AnySeq(_)
@@ -203,7 +207,7 @@ DoWrite(r) ==
                  /\ st' = s1 /\ n' = n + 1
 
 \* behaviours start with one of the set-up prefixes of the mode, executed as ordinary writes
-InitSetups == CASE Mode = "c13" -> Setups [] Mode = "c12p" -> SetupsP [] Mode = "c12big" -> SetupsBig [] Mode = "c06" -> C06Setups
+InitSetups == CASE Mode = "c13" -> Setups [] Mode = "c12p" -> SetupsP [] Mode = "c12big" -> SetupsBig [] Mode \in {"c06", "c06big"} -> C06Setups
                 [] OTHER -> << <<>> >>
 RECURSIVE RunSetup(_, _, _, _)
 RunSetup(s, i, reqs, h) ==
@@ -219,17 +223,21 @@ MInit ==
 \* c06: the leader is restarted at arbitrary points; a behaviour ends with the choice of the routes by which the
 \* same log is applied once more (off: the offset after which the snapshot is cut, ts: how far the commit offset
 \* announced to the follower lags behind the entry it is sent with)
-DoRestart == /\ Mode = "c06" /\ hist # <<>> /\ hist[Len(hist)].a # "Restart"
+IsC06 == Mode \in {"c06", "c06big"}
+DoRestart == /\ IsC06 /\ hist # <<>> /\ hist[Len(hist)].a # "Restart"
              /\ nt' = nt + 1 /\ st' = st /\ n' = n
              /\ hist' = Append(hist, RestartRec(st))
-DoRoutes  == /\ Mode = "c06" /\ nt = MaxReqs /\ n > 0
+DoRoutes  == /\ IsC06 /\ nt = MaxReqs /\ n > 0
              /\ nt' = nt + 1 /\ st' = st /\ n' = n
              /\ \E k \in 0..(n - 1), g \in {0, 1, 3} :
                    hist' = Append(hist, [RestartRec(st) EXCEPT !.a = "Routes", !.off = k, !.ts = g])
 
 MNext == \/ /\ nt < MaxReqs
             /\ ~(hist # <<>> /\ hist[Len(hist)].kf)        \* a known-finding step ends the behaviour
-            /\ ((\E r \in Requests : DoWrite(r)) \/ DoRestart)
+            \* (long c06 behaviours are drawn request by request: computing every successor of a state only to
+            \* keep one of them would cost a recorded observation per candidate request)
+            /\ ((\E r \in (IF IsC06 /\ Export = "runs" THEN {RandomElement(Requests)} ELSE Requests) : DoWrite(r))
+                \/ (DoRestart /\ (Export = "runs" => RandomElement(1..6) = 1)))
          \/ DoRoutes
 
 MSpec == MInit /\ [][MNext]_mvars
@@ -370,6 +378,16 @@ NotifRule == [][ (Stepped /\ Accepted /\ Plain /\ ~Cur.kf) =>
           nf = (IF Res.dels[1] = "OK" /\ ~Internal(Req.dels[1].key) THEN <<NfEntry(Req.dels[1].key, "KEY_DELETED", -1, <<>>)>> ELSE <<>>)
     /\ (Len(Req.puts) = 0 /\ Len(Req.dels) = 0 /\ Len(Req.rngs) = 1) =>
           nf = (IF ~Internal(Req.rngs[1].s) THEN <<NfEntry(Req.rngs[1].s, "KEY_RANGE_DELETED", -1, Req.rngs[1].e)>> ELSE <<>>) ]_mvars
+
+(* C06: the state is a function of the log alone - folding Apply over the recorded requests (with their      *)
+(* offsets and timestamps) from the empty shard, or from the state reached after any prefix, gives the state *)
+RECURSIVE FoldHist(_, _, _)
+FoldHist(s, h, i) == IF i > Len(h) THEN s
+                     ELSE LET nx == IF h[i].a = "Write" /\ h[i].err = "" THEN Apply(s, h[i].req, h[i].off, h[i].ts).s ELSE s
+                          IN IF nx = nx THEN FoldHist(nx, h, i + 1) ELSE s
+ReplayInv == (IsC06 /\ Export = "none") =>
+                /\ FoldHist(InitState, hist, 1) = st
+                /\ \A k \in 1..Len(hist) : FoldHist(FoldHist(InitState, SubSeq(hist, 1, k), 1), SubSeq(hist, k + 1, Len(hist)), 1) = st
 
 ExportSteps == (Export = "steps") => PrintT(<<"STEP", ToJson(hist')>>)
 ExportRuns  == (Export = "runs" /\ nt = MaxReqs) => PrintT(<<"RUN", ToJson(hist)>>)
